@@ -326,12 +326,14 @@ func (c *Client) Send(packet stanza.Packet) error {
 
 	// Store stanza as non-acked as part of stream management
 	// See https://xmpp.org/extensions/xep-0198.html#scenarios
-	if c.config.StreamManagementEnable {
+	// Without a session (before Connect, after a failed Connect or Resume) there is nothing to hold
+	// the stanza in: the write below reports that the client is not connected.
+	if session := c.Session; c.config.StreamManagementEnable && session != nil {
 		_, isRequest := packet.(stanza.SMRequest)
 		_, isAnswer := packet.(stanza.SMAnswer)
 		if !isRequest && !isAnswer {
 			toStore := stanza.UnAckedStz{Stz: string(data)}
-			c.Session.SMState.UnAckQueue.Push(&toStore)
+			session.SMState.UnAckQueue.Push(&toStore)
 		}
 	}
 
@@ -372,9 +374,9 @@ func (c *Client) SendRaw(packet string) error {
 
 	// Store stanza as non-acked as part of stream management
 	// See https://xmpp.org/extensions/xep-0198.html#scenarios
-	if c.config.StreamManagementEnable {
+	if session := c.Session; c.config.StreamManagementEnable && session != nil {
 		toStore := stanza.UnAckedStz{Stz: packet}
-		c.Session.SMState.UnAckQueue.Push(&toStore)
+		session.SMState.UnAckQueue.Push(&toStore)
 	}
 	return c.sendWithWriter(c.transport, []byte(packet))
 }
